@@ -209,3 +209,58 @@ def check_forced_close(check, an: Analysis, rule='forced-close', only_modules=No
                                    'a forced close is swallowed and the activity goes on',
                                    path=rules.path_lines(swallowed))
     return n
+
+
+# ------------------------------------------------------------- own signals only
+def own_signals(an: Analysis, recv: str):
+    """attributes ``self.X = CancelScope(self, ...)`` set in the __init__ chain of recv"""
+    own = []
+    for entry in an.p.classes[recv].mro:
+        info = an.p.classes.get(entry)
+        init = info.methods.get('__init__') if info else None
+        if init is None:
+            continue
+        for node in ast.walk(init.node):
+            if isinstance(node, ast.Assign) and isinstance(node.value, ast.Call) and \
+                    ast.unparse(node.value.func) == 'CancelScope' and \
+                    isinstance(node.targets[0], ast.Attribute) and \
+                    ast.unparse(node.targets[0].value) == 'self':
+                own.append(node.targets[0].attr)
+    return sorted(set(own))
+
+
+def check_suppression(check, an: Analysis, rule: str):
+    """
+    ``_is_suppressed(x)`` decides by identity: true for each signal this scope created,
+    false for a CancelScope that is none of them (a signal of an enclosing scope must
+    pass through a nested scope)
+    """
+    for recv in scope_receivers(an):
+        method = an.p.find_method(recv, '_is_suppressed')
+        param = method.node.args.args[1].arg
+        own = own_signals(an, recv)
+        label = recv.rsplit('.', 1)[-1]
+        callee = Callee(method, recv)
+        for attr in own:
+            first, second = sorted((param, 'self.%s' % attr))
+            paths = an.it._paths_of(callee, {('is', first, second): True}, None,
+                                    want_truth=True)
+            truths = {p.outcome[2] if len(p.outcome) > 2 else 'unknown'
+                      for p in paths if p.kind == 'return'}
+            check.instance(rule, '%s:absorbs-own-%s' % (label, attr), truths == {True},
+                           where_fn(method), '_is_suppressed(x) is true whenever x is '
+                           'self.%s (a signal this scope created): %s' % (
+                               attr, sorted(map(str, truths))), analysed=len(paths))
+        assume = {}
+        for attr in own:
+            first, second = sorted((param, 'self.%s' % attr))
+            assume[('is', first, second)] = False
+        paths = an.it._paths_of(callee, assume, None, want_truth=True,
+                                ptypes={param: an.te.inst(CANCEL_SCOPE)})
+        truths = {p.outcome[2] if len(p.outcome) > 2 else 'unknown'
+                  for p in paths if p.kind == 'return'}
+        check.instance(rule, '%s:passes-foreign-CancelScope' % label,
+                       bool(own) and truths == {False}, where_fn(method),
+                       '_is_suppressed(x) is false for a CancelScope that is none of this '
+                       'scope\'s own signals %s: %s' % (own, sorted(map(str, truths))),
+                       analysed=len(paths))
